@@ -99,6 +99,24 @@ async fn run(name: &str) -> Result<(), String> {
                 Err(format!("discovery from the origin returned (path, applies in) = {:?}; unexpected {:?}; missing {:?}", got, got.difference(&want).collect::<Vec<_>>(), want.difference(&got).collect::<Vec<_>>()))
             }
         }
+        // C03 (history): files applying in the same directory keep their listed order (= their precedence), on every construction from identical inputs
+        "same_directory_files_keep_their_listed_order" => {
+            let d = root.join("proj"); std::fs::create_dir_all(&d).unwrap();
+            // the first file is large (slow to read), the second tiny: read completion order and listed order differ easily
+            let mut big = String::new(); for i in 0..20000 { big.push_str(&format!("# filler line {i}\n")); } big.push_str("*.log\n");
+            std::fs::write(d.join("first.ignore"), &big).unwrap();
+            std::fs::write(d.join("second.ignore"), "!keep.log\n").unwrap();
+            let files = vec![file(&d.join("first.ignore"), Some(&d)), file(&d.join("second.ignore"), Some(&d))];
+            let mut wrong = 0usize; let n = 400usize;
+            for _ in 0..n {
+                let f = IgnoreFilter::new(&d, &files).await.map_err(|e| e.to_string())?;
+                // listed order: `*.log` then `!keep.log`: the later line wins, keep.log is re-included
+                if f.match_path(&d.join("keep.log"), false).is_ignore() { wrong += 1; }
+            }
+            println!("INFO same_directory_files_keep_their_listed_order: {wrong} of {n} constructions from identical inputs evaluated the two files in the wrong order");
+            if wrong > 0 { return Err(format!("IgnoreFilter::new(origin, [first.ignore (`*.log`), second.ignore (`!keep.log`)]), both applying in the same directory: {wrong} of {n} constructions ignore keep.log, i.e. applied the second file BEFORE the first")); }
+            Ok(())
+        }
         // C03 (BOUNDED: 320 ignore-file configurations x 3 constructions x ~60 probes on one tree with prefix-named siblings): the real filter's
         // verdict equals an independent evaluation of the documented rule (nearest directory first; the first file that says something decides)
         "ignore_rule_bounded" => {
